@@ -1065,3 +1065,486 @@ vharness! {
         vcover!(red as u128 > limit as u128, "saturating");
     }
 }
+
+// ===================================================================================================
+// C02 body layer (MQTT 5): the per-type decoders on ARBITRARY bytes.
+// Oracle: a table-driven walk of the property section written from spec table 2.2.2.2 (identifier ->
+// data type) and the per-packet lists of permitted properties; it reports the NAMED malformations of
+// the property: unknown property for this packet type, repeated once-only property, value or inner
+// length not fitting, invalid UTF-8, property length beyond the frame.
+// ===================================================================================================
+use crate::vh::spec_utf8;
+
+#[derive(Clone, Copy, PartialEq)]
+enum PK { B, U16, U32, Var, Str, Bin, Pair }
+
+/// MQTT 5 table 2.2.2.2
+fn spec_prop_kind(id: u8) -> Option<PK> {
+    match id {
+        0x01 | 0x17 | 0x19 | 0x24 | 0x25 | 0x28 | 0x29 | 0x2A => Some(PK::B),
+        0x13 | 0x21 | 0x22 | 0x23 => Some(PK::U16),
+        0x02 | 0x11 | 0x18 | 0x27 => Some(PK::U32),
+        0x0B => Some(PK::Var),
+        0x03 | 0x08 | 0x12 | 0x15 | 0x1A | 0x1C | 0x1F => Some(PK::Str),
+        0x09 | 0x16 => Some(PK::Bin),
+        0x26 => Some(PK::Pair),
+        _ => None,
+    }
+}
+const fn ids(list: &[u8]) -> u64 {
+    let mut m = 0u64;
+    let mut i = 0;
+    while i < list.len() {
+        m |= 1u64 << list[i];
+        i += 1;
+    }
+    m
+}
+const P_ACK: u64 = ids(&[0x1F, 0x26]);
+const P_SUBSCRIBE: u64 = ids(&[0x0B, 0x26]);
+const P_UNSUBSCRIBE: u64 = ids(&[0x26]);
+const P_DISCONNECT: u64 = ids(&[0x11, 0x1F, 0x26, 0x1C]);
+const P_AUTH: u64 = ids(&[0x15, 0x16, 0x1F, 0x26]);
+const P_CONNACK: u64 = ids(&[0x11, 0x21, 0x24, 0x25, 0x27, 0x12, 0x22, 0x1F, 0x26, 0x28, 0x29, 0x2A, 0x13, 0x1A, 0x1C, 0x15, 0x16]);
+const P_CONNECT: u64 = ids(&[0x11, 0x21, 0x27, 0x22, 0x19, 0x17, 0x26, 0x15, 0x16]);
+const P_WILL: u64 = ids(&[0x18, 0x01, 0x02, 0x03, 0x08, 0x09, 0x26]);
+const P_PUBLISH: u64 = ids(&[0x01, 0x02, 0x23, 0x08, 0x09, 0x26, 0x0B, 0x03]);
+const REPEATABLE: u64 = ids(&[0x26]);
+
+fn spec_varint_at(d: &[u8], pos: usize, end: usize) -> Option<(u32, usize)> {
+    let mut mult: u32 = 1;
+    let mut val: u32 = 0;
+    let mut k = 0;
+    while k < 4 {
+        if pos + k >= end {
+            return None;
+        }
+        let e = d[pos + k];
+        val += ((e & 127) as u32) * mult;
+        if e & 128 == 0 {
+            return Some((val, k + 1));
+        }
+        mult *= 128;
+        k += 1;
+    }
+    None
+}
+fn spec_lp_at(d: &[u8], pos: usize, end: usize, utf8: bool) -> Option<usize> {
+    if pos + 2 > end {
+        return None;
+    }
+    let l = ((d[pos] as usize) << 8) | d[pos + 1] as usize;
+    if pos + 2 + l > end {
+        return None;
+    }
+    if utf8 && !spec_utf8(&d[pos + 2..pos + 2 + l]) {
+        return None;
+    }
+    Some(2 + l)
+}
+
+/// walks the property section starting at `pos` (its length prefix) inside d[..len].
+/// Returns Err(()) if one of the NAMED malformations is present, else Ok(end of the section)
+fn spec_walk_props(d: &[u8], pos: usize, allowed: u64, repeatable: u64) -> Result<usize, ()> {
+    let len = d.len();
+    let (plen, vl) = match spec_varint_at(d, pos, len) {
+        Some(x) => x,
+        None => return Err(()), // property length incomplete / over-long
+    };
+    let start = pos + vl;
+    if start + plen as usize > len {
+        return Err(()); // property length contradicts the Remaining Length
+    }
+    let end = start + plen as usize;
+    let mut p = start;
+    let mut seen: u64 = 0;
+    let mut guard = 0;
+    while p < end && guard < 12 {
+        let id = d[p];
+        p += 1;
+        if id >= 64 || (allowed >> id) & 1 == 0 {
+            return Err(()); // unknown property (for this packet type)
+        }
+        if (seen >> id) & 1 == 1 && (repeatable >> id) & 1 == 0 {
+            return Err(()); // once-only property repeated
+        }
+        seen |= 1u64 << id;
+        let adv = match spec_prop_kind(id) {
+            Some(PK::B) => if p + 1 <= end { Some(1) } else { None },
+            Some(PK::U16) => if p + 2 <= end { Some(2) } else { None },
+            Some(PK::U32) => if p + 4 <= end { Some(4) } else { None },
+            Some(PK::Var) => spec_varint_at(d, p, end).map(|x| x.1),
+            Some(PK::Str) => spec_lp_at(d, p, end, true),
+            Some(PK::Bin) => spec_lp_at(d, p, end, false),
+            Some(PK::Pair) => match spec_lp_at(d, p, end, true) {
+                Some(a) => spec_lp_at(d, p + a, end, true).map(|b| a + b),
+                None => None,
+            },
+            None => return Err(()),
+        };
+        match adv {
+            Some(a) => p += a,
+            None => return Err(()), // value does not fit / invalid UTF-8
+        }
+        guard += 1;
+    }
+    Ok(end)
+}
+
+/// (packet id, wire value of the reason code, user properties, reason string) of a decoded ack
+fn ack_fields(p: &Packet) -> (u16, u8, &[UserProperty], &Option<ByteString>) {
+    match p {
+        Packet::PublishAck(a) | Packet::PublishReceived(a) => (a.packet_id.get(), puback_reason_num(a.reason_code), &a.properties, &a.reason_string),
+        Packet::PublishRelease(a) | Packet::PublishComplete(a) => (a.packet_id.get(), if a.reason_code == PublishAck2Reason::Success { 0x00 } else { 0x92 }, &a.properties, &a.reason_string),
+        _ => unreachable!(),
+    }
+}
+/// spec value of a PUBACK/PUBREC reason (name -> value per table 3.4.2.1), independent of the crate's discriminants
+fn puback_reason_num(r: PublishAckReason) -> u8 {
+    match r {
+        PublishAckReason::Success => 0x00,
+        PublishAckReason::NoMatchingSubscribers => 0x10,
+        PublishAckReason::UnspecifiedError => 0x80,
+        PublishAckReason::ImplementationSpecificError => 0x83,
+        PublishAckReason::NotAuthorized => 0x87,
+        PublishAckReason::TopicNameInvalid => 0x90,
+        PublishAckReason::PacketIdentifierInUse => 0x91,
+        PublishAckReason::QuotaExceeded => 0x97,
+        PublishAckReason::PayloadFormatInvalid => 0x99,
+    }
+}
+
+fn stable5(p: &Packet, first: u8) -> bool {
+    let codec = Codec::new();
+    match enc5(&codec, Encoded::Packet(p.clone())) {
+        Ok(out) => dec_body5(&out, first) == Ok(p.clone()),
+        Err(_) => false,
+    }
+}
+
+fn spec_puback_reason(b: u8) -> bool {
+    matches!(b, 0x00 | 0x10 | 0x80 | 0x83 | 0x87 | 0x90 | 0x91 | 0x97 | 0x99)
+}
+fn spec_pubrel_reason(b: u8) -> bool {
+    matches!(b, 0x00 | 0x92)
+}
+fn spec_suback_reason(b: u8) -> bool {
+    matches!(b, 0x00 | 0x01 | 0x02 | 0x80 | 0x83 | 0x87 | 0x8F | 0x91 | 0x97 | 0x9E | 0xA1 | 0xA2)
+}
+fn spec_unsuback_reason(b: u8) -> bool {
+    matches!(b, 0x00 | 0x11 | 0x80 | 0x83 | 0x87 | 0x8F | 0x91)
+}
+/// 3.14.2.1 plus 0x8C, which the crate additionally tolerates in DISCONNECT (recorded leniency)
+fn spec_disconnect_reason(b: u8) -> bool {
+    matches!(b, 0x00 | 0x04 | 0x80..=0x83 | 0x87 | 0x89 | 0x8B | 0x8C | 0x8D..=0x90 | 0x93..=0xA2)
+}
+fn spec_auth_reason(b: u8) -> bool {
+    matches!(b, 0x00 | 0x18 | 0x19)
+}
+fn spec_connack_reason(b: u8) -> bool {
+    matches!(b, 0x00 | 0x80..=0x8A | 0x8C | 0x90 | 0x95 | 0x97 | 0x99..=0x9D | 0x9F)
+}
+
+macro_rules! bd5_ack {
+    ($name:ident, $first:expr, $reason_ok:ident) => {
+        vharness! {
+            fn $name() unwind(10) {
+                let data: [u8; 8] = vk::any_bytes::<8>();
+                let len = vk::any_len(8);
+                let d = &data[..len];
+                let r = decode::decode_packet(vk::bytes_of(data, len), $first);
+                // 3.4.2: id; optional reason (absent = 0x00); optional properties (only if a reason is present)
+                let mut want_ok = len >= 2 && (d[0] != 0 || d[1] != 0);
+                if want_ok && len >= 3 && !$reason_ok(d[2]) {
+                    want_ok = false; // unknown reason code
+                }
+                if want_ok && len >= 4 {
+                    match spec_walk_props(d, 3, P_ACK, REPEATABLE) {
+                        Ok(end) => if end != len { want_ok = false; }, // bytes after the property section
+                        Err(()) => want_ok = false,
+                    }
+                }
+                assert!(r.is_ok() == want_ok);
+                if let Ok(p) = &r {
+                    assert!(stable5(p, $first));
+                    // the decoded VALUE is what the independent reader finds in the same bytes
+                    let (id, rc, ups, rs) = ack_fields(p);
+                    let mut rd = Rd::new(d);
+                    assert!(spec_check_ack(&mut rd, id, rc, ups, rs) && rd.at_end() && !rd.bad, "decoded fields differ from the bytes");
+                }
+                vcover!(r.is_ok() && len == 2, "short form (id only)");
+                vcover!(r.is_ok() && len == 3, "id and reason");
+                vcover!(r.is_ok() && len == 8, "with properties, at the length bound");
+                vcover!(r.is_err() && len >= 5 && d[4] != 0x1F && d[4] != 0x26, "unknown property rejected");
+            }
+        }
+    };
+}
+//@ props: C02
+//@ tier: quick
+//@ functions: v5 decode::decode_packet, PublishAck::decode, ack_props::decode, take_properties, Option<T>::read_value, UserProperty::decode
+//@ bounds: every body of 0..=8 arbitrary bytes
+//@ unwindset: utf8_is_valid=6 spec_utf8=6 slice_eq=6 ack_props::decode=4 spec_walk_props=4 decode_variable_length_cursor=6 encode_opt_props=3 encoded_size_opt_props=3 clone=3 expect_lp=6
+//@ mem: 10  timeout: 1500
+//@ desc: v5 PUBACK body: accepted iff non-zero id, known reason code, well-formed property section holding only 0x1F (once) / 0x26, nothing after it; every named malformation is an error; stable
+bd5_ack!(bd5_puback, 0x40, spec_puback_reason);
+//@ props: C02
+//@ tier: quick
+//@ functions: v5 decode::decode_packet, PublishAck2::decode, ack_props::decode
+//@ bounds: every body of 0..=8 arbitrary bytes
+//@ unwindset: utf8_is_valid=6 spec_utf8=6 slice_eq=6 ack_props::decode=4 spec_walk_props=4 decode_variable_length_cursor=6 encode_opt_props=3 encoded_size_opt_props=3 clone=3 expect_lp=6
+//@ mem: 10  timeout: 1500
+//@ desc: v5 PUBREL body (as bd5_puback; reason codes 0x00 / 0x92)
+bd5_ack!(bd5_pubrel, 0x62, spec_pubrel_reason);
+
+macro_rules! bd5_suback {
+    ($name:ident, $first:expr, $reason_ok:ident) => {
+        vharness! {
+            fn $name() unwind(9) {
+                let data: [u8; 7] = vk::any_bytes::<7>();
+                let len = vk::any_len(7);
+                let d = &data[..len];
+                let r = decode::decode_packet(vk::bytes_of(data, len), $first);
+                let mut want_ok = len >= 3 && (d[0] != 0 || d[1] != 0);
+                if want_ok {
+                    match spec_walk_props(d, 2, P_ACK, REPEATABLE) {
+                        Ok(end) => {
+                            let mut i = end;
+                            while i < len {
+                                if !$reason_ok(d[i]) { want_ok = false; }
+                                i += 1;
+                            }
+                        }
+                        Err(()) => want_ok = false,
+                    }
+                }
+                assert!(r.is_ok() == want_ok);
+                if let Ok(p) = &r {
+                    assert!(stable5(p, $first));
+                }
+                vcover!(r.is_ok() && len == 7 && d[2] == 0, "four reason codes");
+                vcover!(r.is_ok() && d[2] != 0, "with a property");
+                vcover!(r.is_err() && len == 7 && d[2] == 0, "unknown reason code rejected");
+            }
+        }
+    };
+}
+//@ props: C02
+//@ tier: quick
+//@ functions: v5 decode::decode_packet, SubscribeAck::decode, ack_props::decode
+//@ bounds: every body of 0..=7 arbitrary bytes (at most 4 reason codes: capacity of the list model)
+//@ unwindset: utf8_is_valid=6 spec_utf8=6 slice_eq=6 ack_props::decode=4 spec_walk_props=4 decode_variable_length_cursor=6 encode_opt_props=3 encoded_size_opt_props=3 clone=5 SubscribeAck=6 expect_lp=6
+//@ mem: 10  timeout: 1500
+//@ desc: v5 SUBACK body: accepted iff non-zero id, well-formed property section (0x1F once / 0x26), every reason code from spec table 3.9.3; stable
+bd5_suback!(bd5_suback, 0x90, spec_suback_reason);
+//@ props: C02
+//@ tier: quick
+//@ functions: v5 decode::decode_packet, UnsubscribeAck::decode, ack_props::decode
+//@ bounds: every body of 0..=7 arbitrary bytes
+//@ unwindset: utf8_is_valid=6 spec_utf8=6 slice_eq=6 ack_props::decode=4 spec_walk_props=4 decode_variable_length_cursor=6 encode_opt_props=3 encoded_size_opt_props=3 clone=5 UnsubscribeAck=6 expect_lp=6
+//@ mem: 10  timeout: 1500
+//@ desc: v5 UNSUBACK body (as bd5_suback; reason codes from spec table 3.11.3)
+bd5_suback!(bd5_unsuback, 0xB0, spec_unsuback_reason);
+
+macro_rules! bd5_reason_props {
+    ($name:ident, $first:expr, $reason_ok:ident, $allowed:expr) => {
+        vharness! {
+            fn $name() unwind(11) {
+                let data: [u8; 9] = vk::any_bytes::<9>();
+                let len = vk::any_len(9);
+                let d = &data[..len];
+                let r = decode::decode_packet(vk::bytes_of(data, len), $first);
+                // 3.14.2 / 3.15.2: empty body = reason 0x00, no properties; reason alone; reason + properties
+                let mut want_ok = true;
+                if len >= 1 && !$reason_ok(d[0]) {
+                    want_ok = false;
+                }
+                if want_ok && len >= 2 {
+                    match spec_walk_props(d, 1, $allowed, REPEATABLE) {
+                        Ok(end) => if end != len { want_ok = false; },
+                        Err(()) => want_ok = false,
+                    }
+                }
+                assert!(r.is_ok() == want_ok);
+                if let Ok(p) = &r {
+                    assert!(stable5(p, $first));
+                }
+                vcover!(r.is_ok() && len == 0, "empty body");
+                vcover!(r.is_ok() && len == 9, "properties at the length bound");
+                vcover!(r.is_err() && len >= 1 && $reason_ok(d[0]), "malformed properties rejected");
+            }
+        }
+    };
+}
+//@ props: C02 C15
+//@ tier: quick
+//@ functions: v5 decode::decode_packet, Disconnect::decode, take_properties, Option<T>::read_value
+//@ bounds: every body of 0..=9 arbitrary bytes
+//@ unwindset: utf8_is_valid=7 spec_utf8=7 slice_eq=7 Disconnect=5 spec_walk_props=5 decode_variable_length_cursor=6 encode_opt_props=3 encoded_size_opt_props=3 clone=3 expect_lp=7
+//@ mem: 10  timeout: 1500
+//@ desc: v5 DISCONNECT body: accepted iff known reason code and a well-formed property section holding only 0x11 0x1C 0x1F (each once) / 0x26, nothing after it; stable. Recorded leniency: reason 0x8C is accepted although 3.14.2.1 does not list it
+bd5_reason_props!(bd5_disconnect, 0xE0, spec_disconnect_reason, P_DISCONNECT);
+//@ props: C02
+//@ tier: quick
+//@ functions: v5 decode::decode_packet, Auth::decode
+//@ bounds: every body of 0..=9 arbitrary bytes
+//@ unwindset: utf8_is_valid=7 spec_utf8=7 slice_eq=7 Auth=5 spec_walk_props=5 decode_variable_length_cursor=6 encode_opt_props=3 encoded_size_opt_props=3 clone=3 expect_lp=7
+//@ mem: 10  timeout: 1500
+//@ desc: v5 AUTH body: accepted iff reason in {0x00,0x18,0x19} and a well-formed property section holding only 0x15 0x16 0x1F (each once) / 0x26; stable
+bd5_reason_props!(bd5_auth, 0xF0, spec_auth_reason, P_AUTH);
+
+vharness! {
+    //@ props: C02
+    //@ tier: quick
+    //@ functions: v5 decode::decode_packet (all 16 first-byte values x reserved flag bits)
+    //@ bounds: every first byte 0..=255 (PUBLISH excluded: streaming arms) with an EMPTY body
+    //@ desc: v5 dispatch on the first byte: only the exact type+flags values of the specification are recognised; type 0 is unsupported; PINGREQ/PINGRESP/DISCONNECT/AUTH accept the empty body, all others reject it
+    fn bd5_dispatch() unwind(6) {
+        let first = vk::any_u8();
+        vk::assume(!(first >= 0x30 && first <= 0x3f));
+        let r = decode::decode_packet(Bytes::new(), first);
+        let known = matches!(first, 0x10 | 0x20 | 0x40 | 0x50 | 0x62 | 0x70 | 0x82 | 0x90 | 0xA2 | 0xB0 | 0xC0 | 0xD0 | 0xE0 | 0xF0);
+        if !known {
+            assert!(r == Err(crate::error::DecodeError::UnsupportedPacketType));
+        }
+        let empty_ok = matches!(first, 0xC0 | 0xD0 | 0xE0 | 0xF0);
+        assert!(r.is_ok() == empty_ok);
+        vcover!(r.is_ok(), "empty body accepted");
+        vcover!(known && r.is_err(), "empty body rejected");
+    }
+}
+
+vharness! {
+    //@ props: C02
+    //@ tier: quick
+    //@ functions: v5 decode::decode_packet, Subscribe::decode, SubscriptionOptions::decode, decode_variable_length_cursor
+    //@ bounds: every body of 0..=9 arbitrary bytes
+    //@ unwindset: utf8_is_valid=7 spec_utf8=7 slice_eq=7 Subscribe=5 spec_walk_props=5 decode_variable_length_cursor=6 clone=4 expect_lp=7
+    //@ mem: 10  timeout: 1500
+    //@ desc: v5 SUBSCRIBE body: zero id, malformed / unknown / repeated properties (0x0B once, 0x26), subscription identifier 0, truncated filters, invalid UTF-8, QoS 3 and retain-handling 3 are errors; accepted otherwise (reserved option bits 6-7 are ignored: leniency); stable
+    fn bd5_subscribe() unwind(11) {
+        let data: [u8; 9] = vk::any_bytes::<9>();
+        let len = vk::any_len(9);
+        let d = &data[..len];
+        let r = decode::decode_packet(vk::bytes_of(data, len), 0x82);
+        let mut want_ok = len >= 3 && (d[0] != 0 || d[1] != 0);
+        if want_ok {
+            match spec_walk_props(d, 2, P_SUBSCRIBE, REPEATABLE) {
+                Ok(end) => {
+                    // 3.8.2.1.2: a Subscription Identifier of 0 is a protocol error
+                    let (_pl, vl) = spec_varint_at(d, 2, len).unwrap();
+                    let mut p = 2 + vl;
+                    let mut g = 0;
+                    while p < end && g < 4 {
+                        if d[p] == 0x0B {
+                            let (v, k) = spec_varint_at(d, p + 1, end).unwrap();
+                            if v == 0 { want_ok = false; }
+                            p += 1 + k;
+                        } else {
+                            let a = spec_lp_at(d, p + 1, end, true).unwrap();
+                            let b = spec_lp_at(d, p + 1 + a, end, true).unwrap();
+                            p += 1 + a + b;
+                        }
+                        g += 1;
+                    }
+                    let mut q = end;
+                    let mut g = 0;
+                    while want_ok && q < len && g < 4 {
+                        match spec_lp_at(d, q, len, true) {
+                            Some(a) => {
+                                q += a;
+                                if q >= len { want_ok = false; }
+                                else {
+                                    let o = d[q];
+                                    if o & 3 == 3 || (o >> 4) & 3 == 3 { want_ok = false; }
+                                    q += 1;
+                                }
+                            }
+                            None => want_ok = false,
+                        }
+                        g += 1;
+                    }
+                }
+                Err(()) => want_ok = false,
+            }
+        }
+        assert!(r.is_ok() == want_ok);
+        if let Ok(p) = &r {
+            assert!(stable5(p, 0x82));
+        }
+        vcover!(r.is_ok() && len == 9, "accepted at the length bound");
+        vcover!(r.is_ok() && len > 3 && d[2] >= 2 && d[3] == 0x0B, "with a subscription identifier");
+        vcover!(r.is_err() && len > 3, "rejected");
+    }
+}
+
+vharness! {
+    //@ props: C02
+    //@ tier: quick
+    //@ functions: v5 decode::decode_packet, Unsubscribe::decode
+    //@ bounds: every body of 0..=8 arbitrary bytes
+    //@ unwindset: utf8_is_valid=6 spec_utf8=6 slice_eq=6 Unsubscribe=5 spec_walk_props=5 decode_variable_length_cursor=6 clone=4 expect_lp=6
+    //@ mem: 10  timeout: 1500
+    //@ desc: v5 UNSUBSCRIBE body: accepted iff non-zero id, property section holding only 0x26, every filter a complete well-formed UTF-8 string; stable
+    fn bd5_unsubscribe() unwind(10) {
+        let data: [u8; 8] = vk::any_bytes::<8>();
+        let len = vk::any_len(8);
+        let d = &data[..len];
+        let r = decode::decode_packet(vk::bytes_of(data, len), 0xA2);
+        let mut want_ok = len >= 3 && (d[0] != 0 || d[1] != 0);
+        if want_ok {
+            match spec_walk_props(d, 2, P_UNSUBSCRIBE, REPEATABLE) {
+                Ok(end) => {
+                    let mut q = end;
+                    let mut g = 0;
+                    while want_ok && q < len && g < 4 {
+                        match spec_lp_at(d, q, len, true) {
+                            Some(a) => q += a,
+                            None => want_ok = false,
+                        }
+                        g += 1;
+                    }
+                }
+                Err(()) => want_ok = false,
+            }
+        }
+        assert!(r.is_ok() == want_ok);
+        if let Ok(p) = &r {
+            assert!(stable5(p, 0xA2));
+        }
+        vcover!(r.is_ok() && len == 8, "accepted at the length bound");
+        vcover!(r.is_err() && len > 3, "rejected");
+    }
+}
+
+vharness! {
+    //@ props: C02
+    //@ tier: quick
+    //@ functions: v5 decode::decode_packet, ConnectAck::decode, take_properties, Option<T>::read_value
+    //@ bounds: every body of 0..=9 arbitrary bytes
+    //@ unwindset: utf8_is_valid=6 spec_utf8=6 slice_eq=6 ConnectAck=6 spec_walk_props=6 decode_variable_length_cursor=6 encode_opt_props=3 encoded_size_opt_props=3 clone=3 expect_lp=6 spec_check_connack_props=8
+    //@ mem: 12  timeout: 1800
+    //@ desc: v5 CONNACK body: reserved acknowledge flags, unknown reason code, any named property malformation (unknown id, repeated once-only id, value not fitting, invalid UTF-8, length beyond the frame) and trailing bytes are errors; whatever is accepted is stable
+    fn bd5_connack() unwind(11) {
+        let data: [u8; 9] = vk::any_bytes::<9>();
+        let len = vk::any_len(9);
+        let d = &data[..len];
+        let r = decode::decode_packet(vk::bytes_of(data, len), 0x20);
+        let mut named_bad = len < 3 || d[0] & 0xFE != 0 || !spec_connack_reason(d[1]);
+        if !named_bad {
+            match spec_walk_props(d, 2, P_CONNACK, REPEATABLE) {
+                Ok(end) => if end != len { named_bad = true; },
+                Err(()) => named_bad = true,
+            }
+        }
+        if named_bad {
+            assert!(r.is_err());
+        }
+        if let Ok(p) = &r {
+            assert!(stable5(p, 0x20));
+        }
+        vcover!(r.is_ok() && len == 9, "accepted at the length bound");
+        vcover!(r.is_err() && !named_bad, "rejected for a property VALUE (e.g. receive maximum 0, flag byte > 1)");
+        vcover!(named_bad && len >= 5 && d[1] == 0 && d[0] == 0, "named malformation in the properties");
+    }
+}
